@@ -204,7 +204,7 @@ func (m *Machine) global(g *ssa.Global) *Cell {
 
 // standard-library packages whose package-level tables (asciiSpace, base64 alphabets, ...) are needed by
 // code that is interpreted from source: their own initialiser runs like the module's (imports' do not)
-var initWhitelist = map[string]bool{"bytes": true, "strings": true, "encoding/pem": true, "encoding/base64": true, "encoding/hex": true}
+var initWhitelist = map[string]bool{"crypto/x509/pkix": true, "bytes": true, "strings": true, "encoding/pem": true, "encoding/base64": true, "encoding/hex": true}
 
 func (m *Machine) runInit(p *ssa.Package) {
 	m.initDone[p] = true
